@@ -45,17 +45,23 @@ def scn_retry(ctx):
     if not p.get("exp_ge1", True):
         ctx.assume(sleep * expo >= 128 * eps)
 
+    import time as time_mod
+    dur = None
+    if p.get("slow_callable"):
+        dur = ctx.real("dur", lo=1, hi=3)
     calls = []  # policy calls: (method, attempt, sub)
 
     class Pol(ExceptionRetryPolicy):
         def should_retry(self, attempt, future):
             calls.append(("should_retry", attempt, id(future), sched.now()))
-            if mode == "raises" and attempt == p.get("raise_at", 1):
+            if mode == "raises" and p.get("raise_in", "should_retry") == "should_retry" and attempt == p.get("raise_at", 1):
                 raise RuntimeError("policy is broken")
             return ExceptionRetryPolicy.should_retry(self, attempt, future)
 
         def sleep_time(self, attempt, future):
             calls.append(("sleep_time", attempt, id(future), sched.now()))
+            if mode == "raises" and p.get("raise_in") == "sleep_time" and attempt == p.get("raise_at", 1):
+                raise RuntimeError("policy is broken")
             return ExceptionRetryPolicy.sleep_time(self, attempt, future)
 
     pol = Pol(max_attempts=maxatt, sleep=sleep, exponent=expo, max_sleep=maxs,
@@ -85,6 +91,8 @@ def scn_retry(ctx):
             if f is not None and f.done():
                 sp["early_done"][0] = True
             sched.point()
+            if dur is not None:
+                time_mod.sleep(dur)  # a slow callable: the back-off counts from its END
             if sp["running"][0] > 1:
                 sp["overlap"][0] = True
             c = ctx.choice(4, "script%d.%d" % (sp["i"], k)) if k + 1 < maxatt + 1 else 0
@@ -130,7 +138,8 @@ def scn_retry(ctx):
                 break
         if mode == "raises":
             ra = p.get("raise_at", 1)
-            exp_n = min(exp_n, ra)
+            if p.get("raise_in", "should_retry") == "should_retry" or any(r["c"] in (1, 2) for r in inv[:ra][-1:]):
+                exp_n = min(exp_n, ra)
         ctx.check("attempt-count", len(inv) == exp_n, "sub %d: %d invocations, expected %d (script %s)" % (
             i, len(inv), exp_n, [r["c"] for r in inv]))
         ctx.check("attempts-sequential", not sp["overlap"][0], "sub %d: two attempts overlapped" % i)
@@ -173,7 +182,8 @@ def scn_retry(ctx):
     ctx.check("policy-attempt-numbers", allnums == sorted(sum(seqs.values(), [])), "should_retry attempts %s" % allnums)
     st = [c for c in calls if c[0] == "sleep_time"]
     n_retries = sum(max(0, len(sp["inv"]) - 1) for sp in subs)
-    ctx.check("sleep_time-once-per-retry", len(st) == n_retries, "sleep_time calls %d, retries %d" % (len(st), n_retries))
+    if not (mode == "raises" and p.get("raise_in") == "sleep_time"):
+        ctx.check("sleep_time-once-per-retry", len(st) == n_retries, "sleep_time calls %d, retries %d" % (len(st), n_retries))
     ex.shutdown(wait=True)
     return True
 
@@ -199,6 +209,8 @@ def plan(tier, seed):
         items.append(dict(scenario="retry", params=dict(nsub=1, max_attempts=3, base="pool", policy="raises", raise_at=2), bounds=dict(P=0)))
         items.append(dict(scenario="retry", params=dict(nsub=2, max_attempts=2, base="sync"), bounds=dict(P=0)))
         items.append(dict(scenario="retry", params=dict(nsub=1, max_attempts=3, base="sync", exp_ge1=False), bounds=dict(P=0)))
+        items.append(dict(scenario="retry", params=dict(nsub=1, max_attempts=2, base="pool", slow_callable=True), bounds=dict(P=0)))
+        items.append(dict(scenario="retry", params=dict(nsub=1, max_attempts=3, base="sync", policy="raises", raise_in="sleep_time", raise_at=1), bounds=dict(P=0)))
     else:
         items.append(dict(scenario="retry", params=dict(nsub=1, max_attempts=3, base="pool", exp_ge1=False), bounds=dict(P=2)))
         items.append(dict(scenario="retry", params=dict(nsub=1, max_attempts=3, base="sync"), bounds=dict(P=2)))
